@@ -34,8 +34,25 @@ Definition fresh (m : mst) (c : N) : verdict :=
 Definition saw (m : mst) (c : N) (un : list (N * N)) (nf : list (N * N)) : mst :=
   {| m_seen := c :: m_seen m; m_last := c; m_unans := un; m_notifs := nf |}.
 
+(* overlapping calls: every counter is new and above everything written before the burst
+   began (the calls of a burst overlap each other, so no order is required among them) *)
+Fixpoint mon_burst (base : N) (seen : list N) (last : N) (ks : list N) (out : list obs) : list N * N * verdict :=
+  match ks, out with
+  | [], [] => (seen, last, [])
+  | k :: ks', Written c k' p :: out' =>
+      let v := (if memN c seen then [CL_DUP] else []) ++
+               (if N.ltb base c then [] else [CL_ORDER]) ++
+               (if N.eqb k k' && N.eqb p 0 then [] else [CL_SHAPE]) in
+      let '(sn, l, v') := mon_burst base (c :: seen) (N.max last c) ks' out' in
+      (sn, l, v ++ v')
+  | _, _ => (seen, last, [CL_SHAPE])
+  end.
+
 Definition mon (m : mst) (o : op) (out : list obs) : mst * verdict :=
   match o, out with
+  | Burst ks, _ =>
+      let '(sn, l, v) := mon_burst (m_last m) (m_seen m) (m_last m) ks out in
+      ({| m_seen := sn; m_last := l; m_unans := m_unans m; m_notifs := m_notifs m |}, v)
   | Request h, [Written c k p; RetCtr c'] =>
       (saw m c ((c, h) :: m_unans m) (m_notifs m),
        fresh m c ++
